@@ -39,8 +39,10 @@ def _is_cmd_body(site, idx):
 TEXT_ALLOW = {}  # no exemption by (function, local name): the one exempt hole is recognised by its template (_is_cmd_body)
 
 
-def enc_rule(repo, res, rule="ENC", tier="quick"):
+def enc_rule(repo, res, rule="ENC", tier="quick", shells=None):
     for mod in RE.EMITTERS:
+        if shells is not None and mod not in shells:
+            continue
         encs = X.find_encoders(repo, mod)
         fq = f"{mod}::make_string_constant"
         if len(encs) != 1:
@@ -62,7 +64,7 @@ def enc_rule(repo, res, rule="ENC", tier="quick"):
             res.ok(rule, f"{rule}:{fq}", f"for all strings: {mod} reads {prefix}{{{desc}}}{suffix} back as the original text, closed and inert ({stats['states']} product states, {stats['edges']} transitions, alphabet of {stats['alphabet']} classes)", fn.loc())
         else:
             res.bad(rule, f"{rule}:{fq}", f"chain {desc}: input {cex.get('input')!r} is emitted as {cex.get('encoded')!r}: {cex['why']}", fn.loc())
-    if "pwsh" in RE.EMITTERS:
+    if "pwsh" in RE.EMITTERS and (shells is None or "pwsh" in shells):
         res.advisory("PowerShell accepts U+201C/U+201D/U+201E as string delimiters; the description syntax admits them and pwsh::make_string_constant does not escape them (outside C07's checked alphabet)")
 
 
